@@ -26,10 +26,10 @@ PROPS = {
     },
     "C03": {
         "id": "C03", "cmd": "seq", "level": "exploration",
-        "rule": "every (abstract state, op) pair for 3 nodes and a bounded number of live edges on all four flavours, judged by the step relation over (pre-observation, op, result, post-observation): connect appends exactly one edge, try_connect connects iff the caller lists no edge to the peer, disconnect removes exactly the returned edge from both ends or fails without effect, isolate removes exactly the incident edges, no panic / re-entrant lock; operands are obtained through 7 handle provenances (original, clone, neighbour lookup, yielded edge endpoint, container get/index, search result, path node); plus seeded random histories. distinct = distinct (flavour, canonical pre-state, op) triples and distinct random histories.",
+        "rule": "every (abstract state, op) pair for 3 nodes and a bounded number of live edges on all four flavours, judged by the step relation over (pre-observation, op, result, post-observation): connect appends exactly one edge, try_connect connects iff the caller lists no edge to the peer, disconnect removes exactly the returned edge from both ends or fails without effect, isolate removes exactly the incident edges, no panic / re-entrant lock; operands are obtained through 8 handle provenances (fresh clone of the original, clone of a clone, neighbour lookup, yielded edge endpoint, container get/index, search result, path node, and the long-lived original handle object itself, through which one step in eight and one random history in four run entirely); plus seeded random histories. distinct = distinct (flavour, canonical pre-state, op) triples and distinct random histories.",
         "shards": {"quick": 8, "thorough": 16},
         "exhaustive": {"quick": True, "thorough": True},
-        "require": {"any": ["enumerations_completed", "steps_with_parallel_ge3", "selfloop_removed_by_disconnect", "selfloop_removed_by_isolate", "failing_calls", "prov.2", "prov.3", "prov.4", "prov.5", "prov.6", "random_histories"]},
+        "require": {"any": ["enumerations_completed", "steps_with_parallel_ge3", "selfloop_removed_by_disconnect", "selfloop_removed_by_isolate", "failing_calls", "prov.2", "prov.3", "prov.4", "prov.5", "prov.6", "prov.7", "random_histories"]},
         "assumptions": SEQ_ASSUME,
     },
 
@@ -111,7 +111,7 @@ PROPS["C18"] = {
 
 PROPS["C19"] = {
     "id": "C19", "cmd": "leak", "level": "exploration",
-    "rule": "scenarios = (multigraph on <=N nodes / <=E connects incl. self-loops, cycles, parallel edges) x 14 sets of extra handles (container, yielded edge, bfs path, dfs cycle, preorder nodes, postorder edges, clone, found node) and optional neighbour lookups / refused try_connects from both ends and a history of searches of every kind (found and absent targets, transposed, cycles, orderings) before the drops x drop orders (all permutations up to 4 handles, 14 sampled beyond: originals first, last, shuffled); random scenarios on 2..8 nodes add disconnect/isolate before the drops. After every single drop: no payload of a node that a surviving handle mentions has been released, every surviving handle still reads key/value of its nodes (own payload instance); after the last drop: live count 0 and every payload instance released exactly once. The same sub-command is re-run under valgrind memcheck (leak check, definite+indirect) and under Miri (leak report at exit, UB) as independent oracles. distinct = distinct (flavour, graph, handle set, drop order).",
+    "rule": "scenarios = (multigraph on <=N nodes / <=E connects incl. self-loops, cycles, parallel edges) x 14 sets of extra handles (container, yielded edge, bfs path, dfs cycle, preorder nodes, postorder edges, clone, found node) and optional neighbour lookups / refused try_connects from both ends and a history of searches of every kind (found and absent targets, transposed, cycles, orderings) before the drops x drop orders (all permutations up to 4 handles, 14 sampled beyond: originals first, last, shuffled); random scenarios on 2..8 nodes add disconnect/isolate before the drops. After every single drop: no payload of a node that a surviving handle mentions has been released, every surviving handle still reads key/value of its nodes (own payload instance), and once some original handles are gone every surviving node handle is poked (iter_out/iter_in/find_* for every key, each under catch_unwind): an entry for a departed neighbour may panic but never yields a node whose value was already released; after the last drop: live count 0 and every payload instance released exactly once. The same sub-command is re-run under valgrind memcheck (leak check, definite+indirect) and under Miri (leak report at exit, UB) as independent oracles. distinct = distinct (flavour, graph, handle set, drop order).",
     "shards": {"quick": 8, "thorough": 16},
     "args": {"quick": ["--max-n", "3", "--max-e", "2", "--random", "40000"], "thorough": ["--max-n", "3", "--max-e", "3", "--random", "1000000"]},
     "valgrind": {"quick": {"procs": 8, "args": ["--max-n", "2", "--max-e", "2", "--random", "400"], "timeout": 600},
@@ -119,8 +119,8 @@ PROPS["C19"] = {
     "miri": {"quick": {"procs": 16, "nshards": 1600, "args": ["--max-n", "2", "--max-e", "1", "--random", "0"], "timeout": 900},
              "thorough": {"procs": 16, "nshards": 96, "args": ["--max-n", "2", "--max-e", "1", "--random", "64"], "timeout": 3000}},
     "exhaustive": {"quick": True, "thorough": True},
-    "require": {"any": ["enumerations_completed", "scenarios_with_selfloop", "handle.container", "handle.edge", "handle.path", "handle.search_nodes result", "handle.search_edges result", "reads_through_surviving_handles", "random_scenarios", "valgrind.scenarios", "miri.scenarios", "scenarios_with_lookups_before_drop", "scenarios_with_search_history_before_drop"]},
-    "assumptions": ["the drop counters keep no addresses, so they cannot hide a leak from memcheck or Miri", "'usable' is read as: key(), value() and degree readable through the surviving handle (iterating edges whose peers the program itself dropped is outside the properties' live-node premise)"],
+    "require": {"any": ["enumerations_completed", "scenarios_with_selfloop", "handle.container", "handle.edge", "handle.path", "handle.search_nodes result", "handle.search_edges result", "reads_through_surviving_handles", "random_scenarios", "valgrind.scenarios", "miri.scenarios", "scenarios_with_lookups_before_drop", "scenarios_with_search_history_before_drop", "pokes_of_survivors_after_partial_drop"]},
+    "assumptions": ["the drop counters keep no addresses, so they cannot hide a leak from memcheck or Miri", "'usable' is read as: key(), value() and degree readable through the surviving handle; iterating or looking up an entry whose peer the program itself dropped may panic (dangling neighbour, outside the properties' live-node premise) - such calls are made under catch_unwind and judged for one thing only: they never hand out a node whose value was already released"],
     "timeout": {"quick": 300, "thorough": 2400},
 }
 
